@@ -1,7 +1,7 @@
 """Assembly of all contract modules, per-property metadata."""
-from . import base, iface, c_output, c_input, c_time, c_integration, c_schedule, c_connect, c_info, c_components, c_grid, c_mask, c_units, c_regrid
+from . import base, iface, c_output, c_input, c_time, c_integration, c_schedule, c_connect, c_info, c_components, c_grid, c_mask, c_units, c_regrid, c_adapters
 
-MODULES = [c_output, c_input, c_time, c_integration, c_schedule, c_connect, c_info, c_components, c_grid, c_mask, c_units, c_regrid]
+MODULES = [c_output, c_input, c_time, c_integration, c_schedule, c_connect, c_info, c_components, c_grid, c_mask, c_units, c_regrid, c_adapters]
 
 LEVEL = {}          # property -> evidence level (default "proof")
 EXPLAIN = {}        # property -> what the run covers
@@ -49,6 +49,7 @@ DEPENDS = [
     (("finam.sdk.output.Output.", "finam.sdk.output.CallbackOutput."), ("C01", "C05", "C08", "C09", "C10", "C20")),
     (("finam.adapters.time.TimeCachingAdapter", "finam.adapters.time_integration.", "finam.sdk.adapter.Adapter."), ("C09", "C10", "C11", "C12")),
     (("finam.tools.connect_helper.",), ("C04", "C05", "C06")),
+    (("finam.adapters.base.",), ("C05", "C07", "C08", "C09")),
     (("Composition.connect", "Composition._connect_components", "Composition._validate_composition"), ("C03", "C04", "C05", "C06", "C10", "C19")),
     (("Composition._finalize_components", "Composition._check_status", "finam.sdk.component.Component."), ("C03", "C10")),
 ]
